@@ -48,9 +48,10 @@ def gen_struct_split(ch):
     if ch.pick("second_node", [False, True]):
         assets += [dict(type="SimpleContract", name="mk2", nodes=["n2"], price="q", min_cap=-4.0, max_cap=4.0),
                    dict(type="Transport", name="tr", nodes=["n1", "n2"], min_cap=0.0, max_cap=3.0, efficiency=0.8)]
+    early = ch.free("inner_active_early", [True, False])   # False: nothing at all is active in the first interval(s)
     if late:
         for a in assets:
-            if a["type"] != "StructuredAsset":
+            if a["type"] != "StructuredAsset" or not early:
                 a["start"] = late
     if ch.free("st.pos", ["last", "first"]) == "first":
         assets.insert(0, assets.pop([a["name"] for a in assets].index("st")))
